@@ -113,9 +113,25 @@ P("dns_off_rdlen", offsetof(_t_dns_answer_suffix, RDLENGTH));
 P("dns_typeA", TYPE_A); P("dns_classIN", CLASS_IN); P("dns_timeout", DNS_TIMEOUT_PER_REQUEST_MS); P("dns_retry", RETRY_DELAY_MS);
 { _t_dns_header h; memset(&h, 0, sizeof(h)); h.RCODE = 15; P("dns_rcode_byte", ((unsigned char*)&h)[3]); }
 """, includes_c=[C.REPO + "/src/user/supla_esp_dns_client.c"])
+    e = run_probe("p_rs", """
+P("rs_start", RS_START_DELAY); P("rs_stop", RS_STOP_DELAY); P("rs_dbl", RELAY_DOUBLE_TRY);
+P("rs_up", RS_RELAY_UP); P("rs_down", RS_RELAY_DOWN); P("rs_off", RS_RELAY_OFF);
+P("rs_max", RS_MAX_COUNT); P("input_max", INPUT_MAX_COUNT); P("relay_max", RELAY_MAX_COUNT);
+""", includes_c=["supla_esp.h", "supla_esp_gpio.h", "supla_esp_rs_fb.h"])
+    # literals inside supla_esp_gpio_rs_set_relay / supla_esp_gpio_relay_hi (fail closed if the text changes shape)
+    rs = open(os.path.join(C.REPO, "src/user/supla_esp_rs_fb.c")).read()
+    m1 = re.search(r"if \(delay_time > (\d+)\) \{", rs)
+    m2 = re.search(r"supla_esp_gpio_relay_hi\(rel->gpio_id, 0\);\s*os_delay_us\((\d+)\);", rs)
+    gp = open(os.path.join(C.REPO, "src/user/supla_esp_gpio.c")).read()
+    m3 = re.search(r"supla_esp_gpio_btn_irq_lock\(1\);\s*os_delay_us\((\d+)\);", gp)
+    m4 = re.search(r"os_delay_us\((\d+)\);\s*supla_esp_gpio_btn_irq_lock\(0\);", gp)
+    if not (m1 and m2 and m3 and m4):
+        raise ExtractError("rs_set_relay / relay_hi: delay literals not recognised")
+    e.update({"rs_thresh": m1.group(1), "rs_oppUs": m2.group(1), "rs_preUs": m3.group(1), "rs_postUs": m4.group(1)})
     a.update(b)
     a.update(c)
     a.update(d)
+    a.update(e)
     return a
 
 
@@ -125,6 +141,7 @@ def emit_consts():
         "/- GENERATED by tools/extract.py from /repo (proto.c, srpc.c, supla_esp.h) - do not edit -/",
         "import SuplaVerif.Model.Proto",
         "import SuplaVerif.Model.Dns",
+        "import SuplaVerif.Model.RsRelay",
         "namespace SuplaVerif.Gen",
         "",
         "def protoParams : ProtoParams :=",
@@ -157,6 +174,13 @@ def emit_consts():
         "def dnsParams : DnsParams :=",
         "  { servers := %s, minLen := %s, maxLen := %s, hdrLen := %s, qSuffix := %s, aSuffix := %s }" % (
             k["dns_servers"], k["dns_minLen"], k["dns_maxLen"], k["dns_hdrLen"], k["dns_qSuffix"], k["dns_aSuffix"]),
+        "def rsParams : RsParams :=",
+        "  { startDelay := %s, stopDelay := %s, thresh := %s, oppUs := %s, preUs := %s, dblUs := %s, postUs := %s }" % (
+            k["rs_start"], k["rs_stop"], k["rs_thresh"], k["rs_oppUs"], k["rs_preUs"], k["rs_dbl"], k["rs_postUs"]),
+        "theorem rs_values_ok : (%s, %s, %s) = (2, 1, 0) := by decide" % (k["rs_up"], k["rs_down"], k["rs_off"]),
+        "def rsMaxCount : Nat := %s" % k["rs_max"],
+        "def inputMaxCount : Nat := %s" % k["input_max"],
+        "def relayMaxCount : Nat := %s" % k["relay_max"],
         "def dnsTimeoutMs : Nat := %s" % k["dns_timeout"],
         "def dnsRetryMs : Nat := %s" % k["dns_retry"],
         "/-- field offsets / literals of the reply parser the model hard-codes -/",
